@@ -1,10 +1,12 @@
 """C11 - GetSnapshot returns the latest accepted snapshot, which is always a usable base."""
+from rules import http as H
 from rules import shared as S
 from tcss import world as WD
 LEVEL = "other"
 TRUSTED = ["TB-rustc", "TB-sqlite", "TB-mutex"]
 EXPLANATION = ("id+bytes written by one statement / one method and read in one transaction with a cross-check of the stored id; the only writer "
-               "is the accept path of AddSnapshot; column <-> field agreement of the metadata")
+               "is the accept path of AddSnapshot; column <-> field agreement of the metadata; the bytes handed to AddSnapshot are this request's own "
+               "accumulated body (no buffer or other state shared between requests)")
 ASSUMPTIONS = ["the walk from the snapshot id to latest is the conclusion of C10 + C08 + C01, not executed here"]
 
 
@@ -14,3 +16,5 @@ def run(rep, W, ctx):
     S.c11(rep, W)
     S.c10(rep, W)
     S.s_wmc(rep, W, only=[WD.tm("set_snapshot")])
+    S.c03_nostate(rep, W)      # the id and the bytes of one upload cannot be mixed with another request's: no shared buffers / statics / thread-locals
+    H.handler_args(rep, W)     # the handler hands AddSnapshot the path id and the body accumulated from this very request
